@@ -19,8 +19,20 @@ use std::sync::{Arc, Mutex};
 // Arithmetic 1: exact integer min-sum (wrapping i64: every operation is
 // commutative/associative, so results cannot depend on presentation order)
 
+/// The field selects the order in which a node's outgoing messages are emitted (0 = in the order
+/// of the incoming slice, 1 = reversed, 2 = rotated, 3 = even positions first): the trait lets an
+/// arithmetic emit them in any order, each message carries its destination.
 #[derive(Debug, Clone, Default)]
-pub struct IntMinSum;
+pub struct IntMinSum(pub u8);
+
+pub fn emit_order(n: usize, ord: u8) -> Vec<usize> {
+    match ord % 4 {
+        0 => (0..n).collect(),
+        1 => (0..n).rev().collect(),
+        2 => (0..n).map(|i| (i + 1) % n).collect(),
+        _ => (0..n).step_by(2).chain((1..n).step_by(2)).collect(),
+    }
+}
 
 const BIG: i64 = 1 << 45;
 
@@ -72,8 +84,8 @@ impl DecoderArithmetic for IntMinSum {
         F: FnMut(SentMessage<i64>),
     {
         let vals: Vec<(usize, i64)> = var_messages.iter().map(|m| (m.source, m.value)).collect();
-        for (i, m) in var_messages.iter().enumerate() {
-            send(SentMessage { dest: m.source, value: ims_rule(&vals, i) });
+        for i in emit_order(var_messages.len(), self.0) {
+            send(SentMessage { dest: var_messages[i].source, value: ims_rule(&vals, i) });
         }
     }
     fn send_var_messages<F>(&mut self, input_llr: i64, check_messages: &[Message<i64>], mut send: F) -> i64
@@ -84,7 +96,8 @@ impl DecoderArithmetic for IntMinSum {
         for m in check_messages {
             total = total.wrapping_add(m.value);
         }
-        for m in check_messages {
+        for i in emit_order(check_messages.len(), self.0) {
+            let m = &check_messages[i];
             send(SentMessage { dest: m.source, value: total.wrapping_sub(m.value) });
         }
         total
@@ -103,7 +116,7 @@ impl DecoderArithmetic for IntMinSum {
 // Arithmetic 2: free algebra of 64-bit hash terms
 
 #[derive(Debug, Clone, Default)]
-pub struct FreeAlgebra;
+pub struct FreeAlgebra(pub u8);
 
 fn mix1(tag: u64, a: u64) -> u64 {
     splitmix(splitmix(tag ^ 0xA5A5_0000_1111_2222).wrapping_add(a))
@@ -138,8 +151,8 @@ impl DecoderArithmetic for FreeAlgebra {
     {
         let terms: Vec<u64> = var_messages.iter().map(|m| mix2(5, m.source as u64, m.value)).collect();
         let s = terms.iter().fold(0u64, |a, &b| a.wrapping_add(b));
-        for (m, t) in var_messages.iter().zip(&terms) {
-            send(SentMessage { dest: m.source, value: mix1(6, s.wrapping_sub(*t)) });
+        for i in emit_order(var_messages.len(), self.0) {
+            send(SentMessage { dest: var_messages[i].source, value: mix1(6, s.wrapping_sub(terms[i])) });
         }
     }
     fn send_var_messages<F>(&mut self, input_llr: u64, check_messages: &[Message<u64>], mut send: F) -> u64
@@ -148,8 +161,8 @@ impl DecoderArithmetic for FreeAlgebra {
     {
         let terms: Vec<u64> = check_messages.iter().map(|m| mix2(7, m.source as u64, m.value)).collect();
         let s = terms.iter().fold(0u64, |a, &b| a.wrapping_add(b));
-        for (m, t) in check_messages.iter().zip(&terms) {
-            send(SentMessage { dest: m.source, value: mix2(8, input_llr, s.wrapping_sub(*t)) });
+        for i in emit_order(check_messages.len(), self.0) {
+            send(SentMessage { dest: check_messages[i].source, value: mix2(8, input_llr, s.wrapping_sub(terms[i])) });
         }
         mix2(9, input_llr, s)
     }
@@ -347,6 +360,9 @@ pub struct Case {
     /// further calls on the *same* decoder object (each must again equal the textbook result)
     #[serde(default)]
     pub more: Vec<(Vec<Fx>, usize)>,
+    /// order in which the checker arithmetics emit a node's messages (see `emit_order`)
+    #[serde(default)]
+    pub emit: u8,
 }
 
 /// any matrix, including checks of degree 0 and 1 and isolated variables
@@ -368,9 +384,9 @@ fn case_strategy(_t: Tier) -> BoxedStrategy<Case> {
             let llr = || prop_oneof![4 => proptest::collection::vec(any_llr(), n), 2 => super::decgen::llr_vector(&h)];
             let limit = || prop_oneof![1 => Just(0usize), 2 => Just(1usize), 3 => Just(2usize), 3 => Just(3usize), 3 => Just(6usize), 2 => Just(20usize), 1 => Just(60usize)];
             let more = proptest::collection::vec((llr(), limit()), 0..=2);
-            (llr(), limit(), more, Just(h))
+            (llr(), limit(), more, Just(h), 0..4u8)
         })
-        .prop_map(|(llrs, limit, more, h)| Case { h, llrs: llrs.into_iter().map(Fx).collect(), limit, more: more.into_iter().map(|(l, m)| (l.into_iter().map(Fx).collect(), m)).collect() })
+        .prop_map(|(llrs, limit, more, h, emit)| Case { h, llrs: llrs.into_iter().map(Fx).collect(), limit, more: more.into_iter().map(|(l, m)| (l.into_iter().map(Fx).collect(), m)).collect(), emit })
         .boxed()
 }
 
@@ -397,7 +413,7 @@ fn check_reference(case: &Case, p: &mut Probe) -> Check {
     let mut max_it = 0;
     let mut any_sign_ok = false;
     macro_rules! one {
-        ($arith:expr, $name:expr) => {{
+        ($arith:expr, $refarith:expr, $name:expr) => {{
             // one decoder object per (arithmetic, schedule), reused for the whole call history;
             // the reference interpreter is stateless
             let mut fl = flooding::Decoder::new(hs.clone(), $arith);
@@ -406,19 +422,22 @@ fn check_reference(case: &Case, p: &mut Probe) -> Check {
                 let sign_ok = case.h.syndrome_ok(&super::decgen::sign_pattern(llrs));
                 any_sign_ok |= sign_ok;
                 let got = guarded(|| fl.decode(llrs, *limit)).map_err(|e| Fail::new("panic", format!("flooding/{} call {ci}: panicked: {e}", $name)))?;
-                let want = ref_flooding(&mut $arith, &case.h, llrs, *limit);
+                let want = ref_flooding(&mut $refarith, &case.h, llrs, *limit);
                 compare(&format!("flooding/{} call {ci}", $name), &got, &want, *limit, sign_ok)?;
                 max_it = max_it.max(match &want { Ok(o) => o.iterations, Err(o) => o.iterations });
                 let got = guarded(|| la.decode(llrs, *limit)).map_err(|e| Fail::new("panic", format!("layered/{} call {ci}: panicked: {e}", $name)))?;
-                let want = ref_layered(&mut $arith, &case.h, llrs, *limit);
+                let want = ref_layered(&mut $refarith, &case.h, llrs, *limit);
                 compare(&format!("layered/{} call {ci}", $name), &got, &want, *limit, sign_ok)?;
                 max_it = max_it.max(match &want { Ok(o) => o.iterations, Err(o) => o.iterations });
                 p.inner += 2;
             }
         }};
     }
-    one!(IntMinSum, "IntMinSum");
-    one!(FreeAlgebra, "FreeAlgebra");
+    // the decoders under test get an arithmetic that emits in the generated order; the reference
+    // interpreter files every message under (source, destination), so emission order cannot matter
+    one!(IntMinSum(case.emit), IntMinSum(0), "IntMinSum");
+    one!(FreeAlgebra(case.emit), FreeAlgebra(0), "FreeAlgebra");
+    p.class_if(case.emit % 4 != 0, "emission-order-permuted");
     let deg2 = case.h.col_lists().iter().any(|c| c.len() >= 2);
     p.class_if(max_it >= 3, "iterations>=3");
     p.class_if(max_it >= 2, "iterations>=2");
